@@ -20,6 +20,7 @@ RULE = (
     "executions disjoint and in delivery order; the barrier opens (A slots usable after the history); every "
     "message is taken and every well-formed one whose pre_execute hooks did not fail is executed. "
     "Non-trivial: >=A non-success outcomes precede the probe, or a completion and an arrival share an instant."
+    " A failing hook raises either a printable exception or one whose __str__ itself raises."
 )
 ASSUMPTIONS = ["virtual-time loop, inline executor; processing interval = [first, last] observable event (under-approximation)"]
 
@@ -75,6 +76,7 @@ def scenario(big: bool = False) -> Any:
         "probe_gap": st.sampled_from([0.0, 0.0, 0.05]),
         "via_api": st.sampled_from([False, False, False, True]),
         "eager_tasks": st.sampled_from([False, False, False, True]),
+        "hook_exc": st.sampled_from(["RuntimeError", "RuntimeError", "BadStrError"]),      # what a failing hook raises: printable or not
     }).map(fin)
 
 
